@@ -139,10 +139,35 @@ func c17Engine(c *lab.Ctx) {
 	rng := c.Rand("cfg")
 	protos := engineProtos
 	routesBy := map[string][]c17Route{}
-	vhReqAdd, vhReqRm := c17GenHops(rng, "vh")
-	rtReqAdd, rtReqRm := c17GenHops(rng, "rc")
-	vhRespAdd, vhRespRm := c17GenHops(rng, "vhr")
-	rtRespAdd, rtRespRm := c17GenHops(rng, "rcr")
+	// header actions of the virtual-host and router-configuration level, per protocol (= per router configuration): which of the two
+	// levels carries actions at all rotates over {both, router only, virtual host only, none} with protocol, batch and seed, so that
+	// every combination of levels being present / absent is driven (a level that is the ONLY one carrying actions included)
+	type c17Levels struct {
+		vhReqAdd, rtReqAdd, vhRespAdd, rtRespAdd []hop
+		vhReqRm, rtReqRm, vhRespRm, rtRespRm     []string
+	}
+	levels := map[string]*c17Levels{}
+	atLeastOne := func(level string) ([]hop, []string) {
+		a, r := c17GenHops(rng, level)
+		if len(a) == 0 && len(r) == 0 {
+			a = append(a, hop{Key: c17Names[rng.Intn(len(c17Names))], Val: level + rng.Alnum(3), Append: rng.Bool()})
+		}
+		return a, r
+	}
+	for pi, p := range protos {
+		lv := &c17Levels{}
+		mask := (pi + c.Batch + int(c.Seed)) % 4 // 0: both, 1: router only, 2: virtual host only, 3: none
+		if mask == 0 || mask == 2 {
+			lv.vhReqAdd, lv.vhReqRm = atLeastOne("vh")
+			lv.vhRespAdd, lv.vhRespRm = atLeastOne("vhr")
+		}
+		if mask == 0 || mask == 1 {
+			lv.rtReqAdd, lv.rtReqRm = atLeastOne("rc")
+			lv.rtRespAdd, lv.rtRespRm = atLeastOne("rcr")
+		}
+		levels[p] = lv
+		c.Count(fmt.Sprintf("level-mask-%d", mask), 1)
+	}
 	for _, p := range protos {
 		var rs []c17Route
 		n := 0
@@ -155,6 +180,10 @@ func c17Engine(c *lab.Ctx) {
 			r := c17Route{Kind: "forward", Timeout: 2000}
 			r.ReqAdd, r.ReqRemove = c17GenHops(rng, "rt")
 			r.RespAdd, r.RespRemove = c17GenHops(rng, "rtr")
+			if i%4 == 3 {
+				// a route that carries no header action of its own: only the outer levels act on it
+				r.ReqAdd, r.ReqRemove, r.RespAdd, r.RespRemove = nil, nil, nil, nil
+			}
 			switch rng.Intn(4) {
 			case 0:
 				r.PrefixRw = "/rw" + rng.Alnum(2)
@@ -256,29 +285,30 @@ func c17Engine(c *lab.Ctx) {
 		return out
 	}
 	e, err := newEngineWith(c, protos, mkRoutes, func(name string) jmap { return jmap{"lb_type": "LB_VERIF"} }, nil, func(proto string, vh jmap, rc jmap) {
-		if len(vhReqAdd) > 0 {
-			vh["request_headers_to_add"] = hopsJSON(vhReqAdd)
+		lv := levels[proto]
+		if len(lv.vhReqAdd) > 0 {
+			vh["request_headers_to_add"] = hopsJSON(lv.vhReqAdd)
 		}
-		if len(vhReqRm) > 0 {
-			vh["request_headers_to_remove"] = vhReqRm
+		if len(lv.vhReqRm) > 0 {
+			vh["request_headers_to_remove"] = lv.vhReqRm
 		}
-		if len(vhRespAdd) > 0 {
-			vh["response_headers_to_add"] = hopsJSON(vhRespAdd)
+		if len(lv.vhRespAdd) > 0 {
+			vh["response_headers_to_add"] = hopsJSON(lv.vhRespAdd)
 		}
-		if len(vhRespRm) > 0 {
-			vh["response_headers_to_remove"] = vhRespRm
+		if len(lv.vhRespRm) > 0 {
+			vh["response_headers_to_remove"] = lv.vhRespRm
 		}
-		if len(rtReqAdd) > 0 {
-			rc["request_headers_to_add"] = hopsJSON(rtReqAdd)
+		if len(lv.rtReqAdd) > 0 {
+			rc["request_headers_to_add"] = hopsJSON(lv.rtReqAdd)
 		}
-		if len(rtReqRm) > 0 {
-			rc["request_headers_to_remove"] = rtReqRm
+		if len(lv.rtReqRm) > 0 {
+			rc["request_headers_to_remove"] = lv.rtReqRm
 		}
-		if len(rtRespAdd) > 0 {
-			rc["response_headers_to_add"] = hopsJSON(rtRespAdd)
+		if len(lv.rtRespAdd) > 0 {
+			rc["response_headers_to_add"] = hopsJSON(lv.rtRespAdd)
 		}
-		if len(rtRespRm) > 0 {
-			rc["response_headers_to_remove"] = rtRespRm
+		if len(lv.rtRespRm) > 0 {
+			rc["response_headers_to_remove"] = lv.rtRespRm
 		}
 	})
 	if err != nil {
@@ -349,7 +379,7 @@ func c17Engine(c *lab.Ctx) {
 							continue
 						}
 						up := ups[0]
-						wit := map[string]interface{}{"proto": proto, "route": fmt.Sprintf("%+v", r), "vhost_req_add": fmt.Sprint(vhReqAdd), "vhost_req_rm": vhReqRm, "router_req_add": fmt.Sprint(rtReqAdd), "router_req_rm": rtReqRm,
+						wit := map[string]interface{}{"proto": proto, "route": fmt.Sprintf("%+v", r), "vhost_req_add": fmt.Sprint(levels[proto].vhReqAdd), "vhost_req_rm": levels[proto].vhReqRm, "router_req_add": fmt.Sprint(levels[proto].rtReqAdd), "router_req_rm": levels[proto].rtReqRm,
 							"sent_headers": sent, "upstream_saw": fmt.Sprint(up.Headers), "uri_sent": req.Path, "uri_upstream": up.URI, "host_upstream": up.Host, "client_saw": fmt.Sprint(ev.Headers)}
 						// what one upstream attempt must have received (request side)
 						judgeUp := func(up upEvent, attempt string) {
@@ -360,8 +390,8 @@ func c17Engine(c *lab.Ctx) {
 								want[k] = v
 							}
 							applyLevel(want, r.ReqAdd, r.ReqRemove)
-							applyLevel(want, vhReqAdd, vhReqRm)
-							applyLevel(want, rtReqAdd, rtReqRm)
+							applyLevel(want, levels[proto].vhReqAdd, levels[proto].vhReqRm)
+							applyLevel(want, levels[proto].rtReqAdd, levels[proto].rtReqRm)
 							got := map[string]string{}
 							for _, kv := range up.Headers {
 								for _, n := range c17Names {
@@ -419,8 +449,8 @@ func c17Engine(c *lab.Ctx) {
 							wantR[k] = v
 						}
 						applyLevel(wantR, r.RespAdd, r.RespRemove)
-						applyLevel(wantR, vhRespAdd, vhRespRm)
-						applyLevel(wantR, rtRespAdd, rtRespRm)
+						applyLevel(wantR, levels[proto].vhRespAdd, levels[proto].vhRespRm)
+						applyLevel(wantR, levels[proto].rtRespAdd, levels[proto].rtRespRm)
 						gotR := map[string]string{}
 						for _, kv := range ev.Headers {
 							for _, n := range c17Names {
